@@ -10,6 +10,7 @@ import (
 	"flag"
 	"fmt"
 	"os"
+	"strings"
 
 	"github.com/rs/zerolog"
 	zlog "github.com/rs/zerolog/log"
@@ -45,6 +46,9 @@ func (r *rec) finishLogger(l zerolog.Logger) *zerolog.Logger {
 
 func (r *rec) plain() *zerolog.Logger { return r.finishLogger(r.base()) }
 func (r *rec) ctx() *zerolog.Logger   { return r.finishLogger(r.base().With().Caller().Logger()) }
+func (r *rec) ctxTwice() *zerolog.Logger {
+	return r.finishLogger(r.base().With().Caller().CallerWithSkipFrameCount(zerolog.CallerSkipFrameCount).Logger())
+}
 func (r *rec) ctxCount(n int) *zerolog.Logger {
 	return r.finishLogger(r.base().With().CallerWithSkipFrameCount(n).Logger())
 }
@@ -60,6 +64,11 @@ func depthCall(n int, f func()) {
 func (r *rec) done(id int, combo string, file string, line int) {
 	lines := bytes.Split(bytes.TrimSpace(r.buf.Bytes()), []byte("\n"))
 	got, ncaller, nev := "", 0, 0
+	want := fmt.Sprintf("%s:%d", file, line)
+	allsame, nwant := true, 1
+	if strings.Contains(combo, "ctxtwice") {
+		nwant = 2
+	}
 	for _, ln := range lines {
 		if len(ln) == 0 {
 			continue
@@ -76,10 +85,13 @@ func (r *rec) done(id int, combo string, file string, line int) {
 			if k == zerolog.CallerFieldName {
 				ncaller++
 				got = fmt.Sprint(v)
+				if got != want {
+					allsame = false
+				}
 			}
 		}
 	}
-	b, _ := json.Marshal(map[string]interface{}{"a": "Site", "id": id, "combo": combo, "want": fmt.Sprintf("%s:%d", file, line), "got": got, "ncaller": ncaller, "nevents": nev})
+	b, _ := json.Marshal(map[string]interface{}{"a": "Site", "id": id, "combo": combo, "want": want, "got": got, "ncaller": ncaller, "nwant": nwant, "allsame": allsame, "nevents": nev})
 	r.out.Write(b)
 	r.out.WriteByte('\n')
 }
